@@ -8,7 +8,7 @@ from ._water import scenario_facts
 PID = "C06"
 LEVEL = "model_checking"
 WITNESSES = ["harvest", "harvest_after_death", "multi_season_summary", "season_with_irrigation", "seasonal_cap_binding",
-             "season_cut_by_end_date", "pre_irrigation_day", "wpy_reduced_gain_day", "et0_below_floor_day"]
+             "season_cut_by_end_date", "pre_irrigation_day", "wpy_reduced_gain_day", "et0_below_floor_day", "co2_above_reference_season"]
 NONTRIVIAL = ["harvest_after_death", "multi_season_summary", "seasonal_cap_binding", "season_cut_by_end_date",
               "pre_irrigation_day", "wpy_reduced_gain_day", "season_with_irrigation"]
 
@@ -53,6 +53,15 @@ def scenarios(tier, seed=0):
             s2 = dict(spec)
             s2["end"] = A._f(A._d("2002/05/01") + __import__("datetime").timedelta(days=cut))
             yield {"kind": "spec", "spec": s2, "label": ["cut", ck, cut]}
+
+
+    # season numbers that do not line up with simulation years (start after the planting day: the first partial season is dropped) and
+    # CO2 options, C3 crops (water productivity adjusted for CO2), several seasons
+    for name in (["Wheat", "Potato", "Cotton"] if tier == "quick" else ["Wheat", "Potato", "Cotton", "Soybean", "Barley", "Tomato", "Maize"]):
+        for co2 in (None, {"table": [[1990, 350.0], [2001, 380.0], [2002, 420.0], [2003, 480.0], [2004, 560.0], [2050, 900.0]]}, {"constant_conc": True, "current_concentration": 600.0}):
+            for start in ("2001/06/15", "2001/05/01", "2001/03/10"):
+                spec = A.catalogue_spec(name, word="warm", irr="smt", start=start, end="2004/04/20", co2=co2)
+                yield {"kind": "spec", "spec": spec, "label": ["co2-years", name, bool(co2), start]}
 
 
 def run(scn):
